@@ -1,5 +1,5 @@
 (* C02 -- Committed messages survive leader changes; replicas never diverge below the HW. *)
-From LB Require Import Base.Prelude Meta.Fsm Repl.Cluster Repl.ClusterProofs Repl.EpochCache Repl.EpochCacheProofs.
+From LB Require Import Base.Prelude Meta.Fsm Repl.Cluster Repl.ClusterProofs Repl.EpochCache Repl.EpochCacheProofs Repl.Fallback Repl.FallbackProofs.
 Open Scope Z_scope.
 
 (* The protocol model (Repl.Cluster): publishes at the leader, fetches of any size by reconciled
@@ -83,6 +83,29 @@ Example C02_history :
   log_of c 0%N = [(4, 0); (4, 1); (5, 12); (5, 13); (6, 24)]%N /\ log_of c 1%N = log_of c 0%N /\ log_of c 2%N = [(4, 0); (4, 1)]%N /\
   hw_of c 0%N = 4 /\ c_committed c = log_of c 0%N.
 Proof. vm_compute. repeat split; reflexivity. Qed.
+
+(* The truncation fallback (truncateUncommitted when the leader-epoch request gets no answer: the
+   replica cuts its log at its own HW).  Histories without it are the histories above; the step
+   keeps the invariant -- and with it every statement above -- for a replica outside the in-sync
+   set and for one whose HW covers everything committed; *)
+Theorem C02_histories_without_fallback : forall xs c, frun c (map FBase xs) = run true c xs.
+Proof. exact frun_base. Qed.
+Print Assumptions C02_histories_without_fallback.
+
+Theorem C02_fallback_harmless_outside_isr_or_with_current_hw : forall c r, Inv c -> ~ In r (c_synced c) ->
+  (~ In r (c_isr c) \/ hw_of c r + 1 = Z.of_nat (length (c_committed c))) -> Inv (fallback c r).
+Proof. exact fallback_inv. Qed.
+Print Assumptions C02_fallback_harmless_outside_isr_or_with_current_hw.
+
+(* for an in-sync replica whose HW lags it is not: the current code, refuted (open finding; the
+   history is replayed on the real server by the driver's fourth corpus history) *)
+Theorem C02_refuted_hw_truncation_fallback :
+  let c := frun (init_cluster [0; 1; 2]%N 0%N 4%N 1)
+                [FBase (KPublish 0); FBase (KFetch 1 1); FBase (KFetch 2 1); FBase (KFetch 1 0); FBase (KFetch 2 0);
+                 FBase (KElect 2 5); FFallback 1; FBase (KElect 1 6)]%N in
+  c_committed c = [(4, 0)]%N /\ c_leader c = 1%N /\ log_of c 1%N = [] /\ committed_lost c = true.
+Proof. exact fallback_loses_committed. Qed.
+Print Assumptions C02_refuted_hw_truncation_fallback.
 
 (* The pinned code, refuted twice. *)
 Theorem C02_refuted_epoch_boundary :
